@@ -790,17 +790,17 @@ func c17Include(c *Ctx) {
 var reviewedPanics = map[string]string{
 	"pkg/config_parser.paramParser.parseParam":   "after the BARRIER a Parameter node has 1 or 3 children by the grammar",
 	"pkg/config_parser.Walker.parseRoutingRule":  "after the BARRIER an OutboundExpr is a bare literal or a function prototype by the grammar",
-	"pkg/trie.Prefix2bin128":                      "guards n > 128 / invalid prefix; callers pass netip.Prefix values already parsed",
-	"common/consts.IpVersionFromAddr":             "not fed from configuration text",
-	"common/consts.init":                          "build-time MaxMatchSetLen_ sanity check",
-	"common/consts.IpVersionStr.ToIpVersionType":  "argument is a compile-time constant at every call site",
-	"common/consts.L4ProtoStr.ToL4ProtoType":      "argument is a compile-time constant at every call site",
-	"common/consts.L4ProtoStr.ToL4Proto":          "argument is a compile-time constant at every call site",
-	"common/bitlist.CompactBitList.Set":           "internal invariant of trie construction (index < size by construction), value-level, not fed by configuration text",
-	"pkg/anybuffer.Buffer.grow":                   "allocation-too-large guard mirrored from bytes.Buffer",
-	"pkg/anybuffer.makeSlice":                     "allocation-too-large guard mirrored from bytes.Buffer",
-	"config.FunctionOrStringToFunction":           "legacy API kept for tests (TestFunctionOrStringToFunctionPreservesLegacyPanicAPI); production uses ParseFunctionOrString",
-	"config.FunctionListOrStringToFunctionList":   "legacy API kept for tests; production uses ParseFunctionListOrString",
+	"pkg/trie.Prefix2bin128":                     "guards n > 128 / invalid prefix; callers pass netip.Prefix values already parsed",
+	"common/consts.IpVersionFromAddr":            "not fed from configuration text",
+	"common/consts.init":                         "build-time MaxMatchSetLen_ sanity check",
+	"common/consts.IpVersionStr.ToIpVersionType": "argument is a compile-time constant at every call site",
+	"common/consts.L4ProtoStr.ToL4ProtoType":     "argument is a compile-time constant at every call site",
+	"common/consts.L4ProtoStr.ToL4Proto":         "argument is a compile-time constant at every call site",
+	"common/bitlist.CompactBitList.Set":          "internal invariant of trie construction (index < size by construction), value-level, not fed by configuration text",
+	"pkg/anybuffer.Buffer.grow":                  "allocation-too-large guard mirrored from bytes.Buffer",
+	"pkg/anybuffer.makeSlice":                    "allocation-too-large guard mirrored from bytes.Buffer",
+	"config.FunctionOrStringToFunction":          "legacy API kept for tests (TestFunctionOrStringToFunctionPreservesLegacyPanicAPI); production uses ParseFunctionOrString",
+	"config.FunctionListOrStringToFunctionList":  "legacy API kept for tests; production uses ParseFunctionListOrString",
 }
 
 func c17PanicSet(c *Ctx) {
